@@ -433,7 +433,9 @@ void World::quiesce() {
   K->faults_enabled = false;
   int rounds = 0;
   for (;;) {
-    if (++rounds > 400) fail("nonquiescent", "system did not settle within 400 rounds after faults stopped");
+    // every round that continues has moved bytes; a client with a 16-byte socket buffer legitimately
+    // needs one round per 16 bytes, so the bound is on sheer volume, not on a few hundred rounds
+    if (++rounds > 200000) fail("nonquiescent", "system did not settle within 200000 delivery rounds after faults stopped");
     bool progress = false;
     for (auto &c : clients) {
       if (c.closed || !c.connected || c.hostile) continue;
